@@ -577,7 +577,10 @@ func (group *Group) writev2RtmpSubSessions(bs net.Buffers) {
 		if session.IsFresh || session.ShouldWaitVideoKeyFrame {
 			continue
 		}
-		_ = session.Writev(bs)
+		// 注意，net.Buffers.WriteTo 会消费（置空）传入切片中的元素，所以每个session需要持有自己的一份切片
+		item := make(net.Buffers, len(bs))
+		copy(item, bs)
+		_ = session.Writev(item)
 	}
 }
 
